@@ -8,6 +8,7 @@ import (
 	"fmt"
 	"go/types"
 	"math"
+	mbits "math/bits"
 	"strconv"
 	"strings"
 	"unicode"
@@ -46,7 +47,27 @@ func buildExternals() {
 	}
 }
 
+// redirects: body-less (assembly) functions -> their pure Go twins in the
+// same package, executed from SSA.
+var redirects = map[string][2]string{
+	"math/big.addVV":     {"math/big", "addVV_g"},
+	"math/big.subVV":     {"math/big", "subVV_g"},
+	"math/big.addVW":     {"math/big", "addVW_g"},
+	"math/big.subVW":     {"math/big", "subVW_g"},
+	"math/big.shlVU":     {"math/big", "shlVU_g"},
+	"math/big.shrVU":     {"math/big", "shrVU_g"},
+	"math/big.mulAddVWW": {"math/big", "mulAddVWW_g"},
+	"math/big.addMulVVW": {"math/big", "addMulVVW_g"},
+}
+
 func lookupExternal(i *interpreter, fn *ssa.Function, name string) externalFn {
+	if rd, ok := redirects[name]; ok {
+		target := i.lookupFunc(rd[0], rd[1])
+		i.w.e.noteIntercept("redirect:" + name + "->" + rd[1])
+		return func(fr *frame, args []value) value {
+			return callSSA(fr.i, fr.caller, 0, target, args, nil)
+		}
+	}
 	if ext := externals[name]; ext != nil {
 		i.w.e.noteIntercept(name)
 		return ext
@@ -139,6 +160,20 @@ var vrtExternals = map[string]externalFn{
 		tt := p.tt()
 		p.addPC(tt.Mk(OUlt, sortBool, 0, v, tt.BV(64, uint64(n))))
 		return int(fr.toInt(v, nil))
+	},
+	"MakeRat": func(fr *frame, args []value) value {
+		// big.Rat{a: Int{neg, abs}, b: Int{neg:false, abs:[den]}} in normal form
+		tt := fr.tt()
+		num := fr.termOf(args[0])
+		den := fr.termOf(args[1])
+		neg := tt.Mk(OSlt, sortBool, 0, num, tt.BV(64, 0))
+		abs := tt.Ite(neg, tt.Mk(ONeg, bvSort(64), 0, num), num)
+		u := types.Typ[types.Uint]
+		var cell value = structure{
+			structure{fr.vBool(neg), []value{fr.valueOfTerm(abs, u)}},
+			structure{false, []value{fr.valueOfTerm(den, u)}},
+		}
+		return &cell
 	},
 	"Concrete": func(fr *frame, args []value) value {
 		return int(fr.toInt(args[0], nil))
@@ -278,27 +313,16 @@ func (p *Path) checkWithRaw(c *Term, classes []string) (SatResult, *cachedModel)
 	if len(classes) == 0 {
 		return p.check(c)
 	}
-	p.flush()
-	s := p.w.solver
-	// declare all nondet vars so that raw text can mention them
-	for _, v := range p.vars() {
-		s.ref(v)
-	}
-	ref := s.ref(c)
-	s.send("(push 1)")
-	s.send(fmt.Sprintf("(assert %s)", ref))
+	asserts := append(append([]*Term{}, p.pc...), c)
+	var raw []string
 	for _, cl := range classes {
-		s.send(fmt.Sprintf("(assert (not %s))", cl))
+		raw = append(raw, "(not "+cl+")")
 	}
-	s.pendingPop = true
-	s.send("(check-sat)")
-	r := s.readResult()
-	s.Stats.Queries++
+	r, m := p.w.solver.Query(asserts, raw, p.vars())
 	var cm *cachedModel
 	if r == Sat {
-		cm = p.addModel(s.GetModel(p.vars()))
+		cm = p.addModel(m)
 	}
-	s.EndCheck()
 	return r, cm
 }
 
@@ -681,6 +705,40 @@ var stdExternals = map[string]externalFn{
 	"math.Cbrt":  fpUF("cbrt", func(a ...float64) float64 { return math.Cbrt(a[0]) }),
 
 	"unicode.Is": extUnicodeIs,
+
+	// math/bits wide arithmetic as one wide bit-vector operation
+	"math/bits.Mul64": func(fr *frame, args []value) value {
+		if x, ok := args[0].(uint64); ok {
+			if y, ok := args[1].(uint64); ok {
+				hi, lo := mbits.Mul64(x, y)
+				return tuple{hi, lo}
+			}
+		}
+		tt := fr.tt()
+		x := tt.Mk(OZext, bvSort(128), 0, fr.termOf(args[0]))
+		y := tt.Mk(OZext, bvSort(128), 0, fr.termOf(args[1]))
+		p := tt.Mk(OMul, bvSort(128), 0, x, y)
+		u := types.Typ[types.Uint64]
+		return tuple{fr.valueOfTerm(tt.Extract(p, 127, 64), u), fr.valueOfTerm(tt.Extract(p, 63, 0), u)}
+	},
+	"math/bits.Add64": func(fr *frame, args []value) value {
+		tt := fr.tt()
+		x := tt.Mk(OZext, bvSort(65), 0, fr.termOf(args[0]))
+		y := tt.Mk(OZext, bvSort(65), 0, fr.termOf(args[1]))
+		c := tt.Mk(OZext, bvSort(65), 0, fr.termOf(args[2]))
+		r := tt.Mk(OAdd, bvSort(65), 0, tt.Mk(OAdd, bvSort(65), 0, x, y), c)
+		u := types.Typ[types.Uint64]
+		return tuple{fr.valueOfTerm(tt.Extract(r, 63, 0), u), fr.valueOfTerm(tt.Mk(OZext, bvSort(64), 0, tt.Extract(r, 64, 64)), u)}
+	},
+	"math/bits.Sub64": func(fr *frame, args []value) value {
+		tt := fr.tt()
+		x := tt.Mk(OZext, bvSort(65), 0, fr.termOf(args[0]))
+		y := tt.Mk(OZext, bvSort(65), 0, fr.termOf(args[1]))
+		c := tt.Mk(OZext, bvSort(65), 0, fr.termOf(args[2]))
+		r := tt.Mk(OSub, bvSort(65), 0, tt.Mk(OSub, bvSort(65), 0, x, y), c)
+		u := types.Typ[types.Uint64]
+		return tuple{fr.valueOfTerm(tt.Extract(r, 63, 0), u), fr.valueOfTerm(tt.Mk(OZext, bvSort(64), 0, tt.Extract(r, 64, 64)), u)}
+	},
 
 	"strconv.Itoa": func(fr *frame, args []value) value {
 		switch x := args[0].(type) {
